@@ -64,3 +64,27 @@ def pytest_sessionfinish(session, exitstatus):
     if path:
         with open(path, "w") as fh:
             json.dump(REPORT, fh)
+
+
+def run_repo_tests_under_contracts(timeout=1500):
+    """run the repository's test-suite (from the tree the check is pointed at) with the plugin; -> report dict"""
+    import subprocess
+    import tempfile
+    from vlib import common
+    src = common.krrood_src()
+    repo_root = os.path.dirname(src)
+    if not os.path.isdir(os.path.join(repo_root, "test")):
+        repo_root = "/repo"          # a scratch copy of src/ only: use the repository's tests against it
+    rep = tempfile.mktemp(prefix="verif-contracts-", suffix=".json")
+    env = dict(os.environ, VERIF_CONTRACT_REPORT=rep, PYTHONDONTWRITEBYTECODE="1",
+               PYTHONPATH=os.pathsep.join([src, common.VERIF, common.DEPS]))
+    r = subprocess.run([common.PY, "-m", "pytest", "-q", "-p", "no:cacheprovider", "-p", "vlib.pytest_contracts", "--timeout=900",
+                        "-x", "--deselect", "test/test_eql/test_rendering.py", "test"],
+                       cwd=repo_root, env=env, capture_output=True, text=True, timeout=timeout)
+    try:
+        report = json.load(open(rep))
+        os.unlink(rep)
+    except Exception:
+        report = {"error": (r.stdout + r.stderr)[-500:]}
+    report["pytest_tail"] = (r.stdout.strip().splitlines() or ["?"])[-1]
+    return report
